@@ -170,6 +170,15 @@ def spec_item(rec, item):
         rec.viol(f'encode-not-inverse/{base}', f'encode(decode({lit!r})) = {back!r}', trd); ok = False
     except Exception as e:  # pylint: disable=broad-except
       rec.viol(f'encode-raises:{type(e).__name__}/{base}', f'encode(decode({lit!r})): {e}', trd); ok = False
+    # an equal value whose dict keys were inserted in another order encodes to the same DNA
+    if isinstance(v, pg.Dict) and len(v) >= 2:
+      try:
+        rv = pg.Dict({k: pg.clone(v.sym_getattr(k), deep=True) for k in reversed(list(v.sym_keys()))})
+        back = t.encode(rv)
+        if back != pg.DNA(D.ctor(lit)):
+          rec.viol(f'encode-depends-on-key-order/{base}', f'decode({lit!r}) with its keys in reverse order encodes to {back!r}', trd); ok = False
+      except Exception as e:  # pylint: disable=broad-except
+        rec.viol(f'encode-raises:{type(e).__name__}/{base}', f'reordered decode({lit!r}): {e}', trd); ok = False
     try:
       m = pg.materialize(value, pg.DNA(D.ctor(lit)))
       if plain(m) != got:
@@ -246,6 +255,24 @@ def typed_item(rec, _):
       rec.viol('encode-not-inverse/typed-object', f'encode(decode({dna!r})) = {t.encode(x)!r}', tr)
   if n != t.dna_spec().space_size:
     rec.viol('iter-count/typed-object', f'{n} vs {t.dna_spec().space_size}', tr)
+  # a manyof whose number of choices can never satisfy the size bounds of the list field it is bound to
+  @pg.members([('w', pg.typing.List(pg.typing.Int(), max_size=2, default=[])),
+               ('m', pg.typing.List(pg.typing.Int(), min_size=2, default=[0, 0]))])
+  class Sized(pg.Object):
+    pass
+  for label, mk in (('max_size', lambda: Sized(w=pg.manyof(3, [1, 2, 3, 4]))), ('min_size', lambda: Sized(m=pg.manyof(1, [1, 2, 3])))):
+    try:
+      x = mk()
+    except (TypeError, ValueError):
+      rec.stat('bad-candidate-refused')
+      continue
+    tt = pg.template(x)
+    try:
+      tt.decode(tt.dna_spec().first_dna())
+      rec.stat('sized-manyof-decodes')
+    except Exception as e:  # pylint: disable=broad-except
+      rec.viol(f'bound-placeholder-cannot-be-decoded/{label}', f'a manyof was accepted by a list field whose {label} it can never meet: '
+               f'decoding a valid DNA raises {type(e).__name__}: {e}', tr)
   for bad in (lambda: fx.Typed(n=pg.oneof([0, 5])), lambda: fx.Typed(n=pg.oneof([0, 'a'])), lambda: fx.Typed(s=pg.oneof([1, 'a'])),
               lambda: fx.Typed(n=pg.floatv(0.0, 1.0)), lambda: fx.Typed(n=pg.manyof(2, [0, 1, 2]))):
     try:
